@@ -114,6 +114,8 @@ fn start_live_dribble(db: IrrDb, twice: bool, dribble: usize) -> LiveIrrd {
             std::thread::spawn(move || {
                 let _ = stream.set_nodelay(true);
                 let mut w = stream.try_clone().expect("clone");
+                // the source selection of this connection: the server carries TEST and ALT and uses TEST by default
+                let mut alt = false;
                 for line in BufReader::new(stream).lines() {
                     let Ok(line) = line else { break };
                     let q = line.trim_end().to_string();
@@ -123,7 +125,12 @@ fn start_live_dribble(db: IrrDb, twice: bool, dribble: usize) -> LiveIrrd {
                     }
                     let mut d = db.clone();
                     d.errors = errors.lock().unwrap().clone();
-                    let answer = d.answer(&q);
+                    let answer = d.answer_sel(&q, alt);
+                    if let Some(list) = q.strip_prefix("!s") {
+                        if list != "-lc" {
+                            alt = list == "-*" || list.split(',').any(|x| x.trim().eq_ignore_ascii_case("ALT"));
+                        }
+                    }
                     let doubled = twice && q.starts_with("!mfilter-set") && answer.as_deref().is_some_and(|a| a.starts_with('A'));
                     qlog.lock().unwrap().push(qrecord(&q, answer.as_deref(), if doubled { 2 } else { 1 }));
                     if let Some(mut a) = answer {
